@@ -486,13 +486,13 @@ def selection_traces(R, tier, part="all"):
     pops = [[3], [1, 2], [2, 2], [1, 2, 3], [3, 1, 2], [2, 3, 2]] + ([] if quick else [[1, 2, 3, 1], [4, 1, 3, 2]])
     for pi, vals in enumerate(pops):
         for minimise in (False, True):
-            for tsize in ([1, 2, 3] if quick else [1, 2, 3, 5]):
+            for tsize in [1, 2, 3]:
                 for repl, pre, reuse in ((False, False, False), (True, False, False), (True, True, False),
                                          (False, False, True), (True, False, True)):
                     # reuse: the SAME step object has already served another population in the same generation
                     # pre: the individuals already carry a fitness for ANOTHER (conflicting) problem that is still alive
                     for target in range(1, len(vals) + 1):
-                        if len(vals) ** (tsize * target) > (3000 if quick else 5000):
+                        if len(vals) ** (tsize * target) > 3000:      # (a leaf costs about 7 ms: the thorough tier adds populations, not depth)
                             continue
                         if pre and (tsize < 2 or len(vals) < 2):
                             continue
@@ -620,7 +620,7 @@ def selection_traces(R, tier, part="all"):
                         return events
 
                     try:
-                        for script, s, res in explore(run, cap=64, max_leaves=(3000 if quick else 3500)):
+                        for script, s, res in explore(run, cap=64, max_leaves=3000):
                             if isinstance(res, Exception):
                                 res = [{"e": "selend", "exc": exc_name(res)}]
                             traces.append((f"lex/{pi}/{mi}/{int(eps)}/{target}/{leaves}", res, {"k": "selection"}))
@@ -648,7 +648,7 @@ def main():
             gen = json.load(f)
         d1, deep = gen["d1"], gen["deep"]
         forms = ["list", "Population", "iterator"]
-        sizes = [2, 3, 5, 8] if quick else [2, 3, 4, 5, 6, 7, 8, 9]
+        sizes = [2, 3, 5, 8] if quick else [2, 3, 4, 5, 7, 9]
         # quick: a third of the depth-one space (rotating with the seed) x one size x one form each
         sel = [t for i, t in enumerate(d1) if quick is False or (i + a.seed) % 3 == 0]
         for i, tree in enumerate(sel):
